@@ -1,20 +1,85 @@
 # Claim table (exec'd by mkmanifest.py).  Keep in step with DESIGN.md section 4.
-claim("C01", "UNIT SCOPE ONLY. For bare single-operator programs (Atom, CharClass over static lists) run through the real "
-      "search loop: matches(i)/is_match agree with a closed-form membership oracle for every input up to the stated "
-      "length over all Unicode scalar values. Multi-term patterns (Sequence, Choice, greedy variable Repeat) and the "
-      "compiler are outside the claim.", "DESIGN.md 4 C01")
-claim("C12", "Bol/Eol::matches_iter succeed exactly at the positions the statement names for every input <= 3 chars over "
-      "all scalar values, every position, flag m on/off. Anchors inside larger patterns are outside the claim.",
-      "DESIGN.md 4 C12")
-for p in ("C02", "C03", "C05", "C06", "C07", "C08", "C11", "C13", "C14", "C15", "C17", "C19", "C20"):
-    na(p, "check under construction in this session (planned claim: see DESIGN.md section 4); not claimed until it runs clean")
-na("C04", "the replace/tokenize/analyze scan loops build a String/Vec per item from symbolic-length slices; Kani 0.68 answers "
-   "with spurious pointer failures (probes P14, P27) - no sound solver verdict obtainable (DESIGN.md 4 C04)")
-na("C09", "class set algebra goes through ICU's CodePointInversionListBuilder, which runs out of memory / time under CBMC even "
-   "for concrete 3-item classes (probes P15, P18); the class parser cannot take symbolic text (P26)")
-na("C10", "finite Unicode data diff with no symbolic dimension beyond one code point; ICU trie iteration is out of CBMC's reach; "
-   "the category-name mapping is decided under C07")
-na("C16", "nullability is computed by running the whole compiled matcher on the empty string (compiler + Sequence, probes P1/P3); "
-   "the API guards are field tests with no symbolic content")
-na("C18", "schedules: Kani does not model threads; histories: the only cross-call state is per-call ReMatcher (type structure) "
-   "and the History memo used by greedy variable Repeat (out of reach, P6)")
+U = "UNIT SCOPE ONLY (no harness runs the compiler or a Sequence/Choice/greedy variable Repeat; see DESIGN.md 1.2). "
+
+claim("C01", U + "For bare single-operator programs - Atom[c], Atom[c1,c2] (flag i on/off), CharClass over static inversion "
+      "lists ('.', '.' with s, [a-c], \\s, {c}), GreedyFixed / ReluctantFixed / UnambiguousRepeat / reluctant variable Repeat over "
+      "Atom[c] with min<=2, max in {1,2,3,unbounded} - run through the real search loop (ReMatcher::matches/match_at): the answer "
+      "equals a closed-form substring-membership oracle for every input up to 2 chars (3 thorough) over ALL Unicode scalar values and "
+      "every search start; plus full-width (all usize) min<=max arithmetic of the four repeat operators.", "DESIGN.md 4 C01")
+claim("C02", U + "Same programs: match start = leftmost admissible position, match end = longest admissible run for greedy operators and "
+      "shortest for reluctant ones (zero-occurrence first); complete yield order of the GreedyFixed (strictly descending, never below "
+      "min, body length 1 and 2) and ReluctantFixed (ascending) iterators; prefix scan with a proper, self-overlapping prefix "
+      "(thorough). Offsets are char offsets over all scalar values. Priority between alternatives / earlier-term dominance is outside.",
+      "DESIGN.md 4 C02")
+claim("C03", U + "Bare Capture(1,Atom[c]): group span = sub-match span, paren_count, group text, back-reference arrays; absent group "
+      "absent after a failed search; ONE SEARCH FROM AN ARBITRARY PRIOR capture/back-reference state leaves exactly the fresh-matcher "
+      "state (inductive step for state reset, plain and OPT_HASBOL paths); nesting table gives each capturing '(' its enclosing group "
+      "(slice). Capture state while backtracking through alternatives/loops is outside.", "DESIGN.md 4 C03")
+claim("C05", "Union of unit obligations, each for ALL values in its bound: no panic / overflow / index error in ReFlags::new (all ASCII "
+      "strings <=3, both dialects), compute_nesting_table (all texts <=5), the four repeat operators for all usize min<=max and for "
+      "positions beyond the end of the input, BackReference for every recorded span, Bol/Eol at every position, the substitution step "
+      "of replace (all replacement texts <=4, 0..12 groups), ReCompiler::bracket on {a,b} / {a} / {a,} for all chars; errors are "
+      "InvalidFlags / Syntax / InvalidReplacementString, never Internal. The recursive-descent parser on arbitrary text is outside.",
+      "DESIGN.md 4 C05")
+claim("C06", U + "Decided by unwinding assertions with stated bounds: every next() of the reluctant variable Repeat (through the real "
+      "Repeat::matches_iter) and of ReluctantFixed terminates, including bodies that fail before min is reached and zero-width bodies "
+      "(Bol/Eol), whose iterators are finite; ForceProgressIterator yields at most 1+4 items at one position then None forever; "
+      "GreedyFixed/ReluctantFixed iterators return None after their last item. TokenIter/AnalyzeIter item bounds, GreedyRepeatIterator "
+      "and SequenceIterator are outside.", "DESIGN.md 4 C06")
+claim("C07", "Flag clause and two tables only: ReFlags::new(f, dialect) is Ok iff f in [smixq]*(;[gkK]*)? (q only XPath), each flag bit "
+      "parsed correctly, else InvalidFlags - all ASCII strings <=3 (4 thorough); get_category_group accepts exactly the 37 XSD category "
+      "names (Cs excluded) and returns the right group - all ASCII names <=2; ReCompiler::bracket accepts {a,b} iff digits with a<=b, "
+      "{a} and {a,} iff digit, with the right bounds - all chars. Acceptance of whole patterns is outside (parser not executable "
+      "on symbolic text).", "DESIGN.md 4 C07")
+claim("C08", "Search-loop shortcuts and two local soundness conditions only: bare programs with prefix / initial_char_class / "
+      "minimum_length / OPT_HASBOL set as ReProgram::new sets them give exactly the oracle answers of their shortcut-free twins "
+      "(C01/C02 harnesses), incl. case-blind prefix scan and line seeking; first-set of a literal contains every character its first "
+      "char can match (real ICU closure, all x); CharacterClass::is_disjoint has no false positives for {x} vs [lo,hi) incl. ranges "
+      "beyond the 100-char scan threshold; operators probed beyond the input end by positional preconditions do not panic. "
+      "Derivation of the shortcut fields, no_ambiguity and optimize() themselves are outside.", "DESIGN.md 4 C08")
+claim("C11", U + "equal_case_blind(a,b) = (a==b or equal simple-lowercase images) for ALL pairs (lower-casing modelled arithmetically), "
+      "symmetric, reflexive; the real ICU mapping agrees with the model on all ASCII pairs (quick) and on Latin-1/Greek/Cyrillic/"
+      "Deseret one-to-one ranges (thorough); Atom[c1,c2] and BackReference under flag i match position-wise case-blind, without i "
+      "identical only; case-blind prefix scan; case-blind first-set contains the literal and its counterpart. Case closure of class "
+      "members at parse time is outside.", "DESIGN.md 4 C11")
+claim("C12", "Bol/Eol::matches_iter succeed exactly at the positions the statement names for every input <=3 chars over all scalar "
+      "values, every position, flag m on/off (incl. no ^ after a final newline); the OPT_HASBOL fast path with newline seeking "
+      "agrees with the leftmost-line-start oracle; '.' with/without s as a static class in the search loop. Anchors inside larger "
+      "patterns and the construction of the dot class are outside.", "DESIGN.md 4 C12")
+claim("C13", U + "Bare Atom[c1,c2] (what a flag-q pattern compiles to): is_match iff the two chars occur contiguously, for ALL chars "
+      "incl. metacharacters, case-blind under i; compute_nesting_table is total on every text (analyze on q patterns); the "
+      "substitution step appends the replacement verbatim under q for all texts incl. $ and backslash, never rejecting; q accepted "
+      "only in the XPath dialect. tokenize/analyze/replace_all as whole calls are outside.", "DESIGN.md 4 C13")
+claim("C14", "The whitespace-stripping block of ReCompiler::compile, extracted verbatim from the current source on every run, on EVERY "
+      "pattern text <=6 chars (8 thorough) over all scalar values without an unmatched ']': output = input minus TAB/LF/CR/SP at "
+      "class depth 0 of the stripped text; whitespace inside classes kept; nothing else removed. That the stripped text is then "
+      "compiled like the original is outside.", "DESIGN.md 4 C14")
+claim("C15", "The per-match substitution step of ReMatcher::replace (latch + expansion + verbatim branch), extracted verbatim on every "
+      "run, for EVERY replacement text <=4 chars (5 thorough) over all scalar values, 0..12 groups each absent or 1 char, one and two "
+      "consecutive matches: output follows the $N (single digit for <=9 groups, longest valid number otherwise), $0, \\$, \\\\ rules; "
+      "InvalidReplacementString iff a $ lacks a digit or a \\ lacks $ or \\; the simple_replacement latch. The outer scan loop "
+      "(copying unmatched text) is outside.", "DESIGN.md 4 C15")
+claim("C17", "Flag gate only: ReFlags::new rejects q iff the dialect is XSD and otherwise parses flags identically (all ASCII strings "
+      "<=3, 4 thorough). The syntactic gates in the parser (reluctant quantifiers, (?:, back-references, \\$, ^ $) are outside.",
+      "DESIGN.md 4 C17")
+claim("C19", U + "BackReference::matches_iter yields pos+(e-s) iff the input at pos repeats input[s..e] (position-wise case-blind under "
+      "i), pos for an empty capture and pos for a group that has not participated, for every recorded span, input <=3 chars (4 "
+      "thorough) over all scalar values, every position; a bare Capture records its span in both back-reference arrays; the arrays "
+      "are fresh for every match attempt whatever an earlier search left behind. The multi-digit \\N rule and captures after "
+      "backtracking are outside.", "DESIGN.md 4 C19")
+claim("C20", "Between single-operator programs only: GreedyFixed(X,1,1) = X, UnambiguousRepeat(X,n,n) = GreedyFixed(X,n,n), "
+      "ReluctantFixed and GreedyFixed agree on is_match and match start, one-char class {c} = literal c - each side equals the same "
+      "closed-form oracle for all c and all inputs in bound; GreedyFixed with a 2-char body never yields below its minimum. Which "
+      "operator the compiler picks for a spelling, flattening and the expansion laws are outside.", "DESIGN.md 4 C20")
+
+na("C04", "the replace/tokenize/analyze scan loops build a String/Vec per item from symbolic-length slices of the haystack; Kani 0.68 "
+   "answers with spurious pointer failures or times out (probes P14, P27) - no sound solver verdict obtainable; the substitution "
+   "step of replace is decided under C15")
+na("C09", "class set algebra runs through ICU's CodePointInversionListBuilder, which exhausts memory/time under CBMC even for concrete "
+   "3-item classes (probes P15, P18); the class parser cannot take symbolic text (P26)")
+na("C10", "finite Unicode data diff with no symbolic dimension beyond one code point; materialising \\p{..}, \\d, \\w iterates ICU tries "
+   "(out of CBMC's reach) and the oracle would be a second Unicode database; the category-name mapping is decided under C07")
+na("C16", "nullability is computed by running the whole compiled matcher on the empty string (compiler + Sequence: probes P1/P3); the "
+   "three API guards are field tests with no symbolic content")
+na("C18", "schedules: Kani does not model threads; histories: cross-call state exists only inside one ReMatcher - its reset is decided "
+   "under C03/C19 - and in the History memo of greedy variable Repeat (out of reach, P6)")
